@@ -287,7 +287,7 @@ def shards(tier):
             if pf[i::n]:
                 out.append({'name': 'bfs-crt%d-%d' % (crt, i), 'kind': 'bfs', 'cfg': cfg, 'prefixes': pf[i::n], 'depth': depth})
     for i in range(8 if tier == 'quick' else 16):
-        out.append({'name': 'walks-%d' % i, 'kind': 'walk', 'examples': 400 if tier == 'quick' else 6000,
+        out.append({'name': 'walks-%d' % i, 'kind': 'walk', 'examples': 800 if tier == 'quick' else 6000,
                     'hypothesis': True, 'steps': 50 if tier == 'quick' else 90})
     return out
 
